@@ -108,13 +108,81 @@ def c02(ctx):
     return "model_checking"
 
 
+@check("C15")
+def c15(ctx):
+    excl = "".join(common.excl_classes("C15"))
+    ctx.rule = ("cells as C01; patterns: conditional grammar Gram!ProfCond exhaustive up to the node bound ((?(N)..), (?(N)), "
+                "(?(cond)yes|no) with look-around and consuming conditions), conditional fillers x contexts (inside atomic groups, "
+                "loops, look-arounds, other conditions), seeded random; all groups compared; non-trivial = matching cells")
+    t3 = texts("sig6", 3)
+    small = []
+    for n in (1, 2, 3, 4):
+        small += read_ndjson(pats("cond", n))
+    cc = read_ndjson(pats("condctx", 0))
+    if ctx.quick:
+        spaces = [("cond1234", renumber_ids(small), t3), ("condctx", cc, t3),
+                  ("random", randgen.random_pats(ctx.rng, "cond", 1200, depth=3), t3)]
+    else:
+        t4 = texts("sig6", 4)
+        spaces = [("cond1234", renumber_ids(small), t3), ("condctx", cc, t3),
+                  ("random", randgen.random_pats(ctx.rng, "cond", 30000, depth=4, max_nodes=18), t3),
+                  ("condctx_L4", cc, t4), ("cond123_L4", renumber_ids([r for r in small]), t4)]
+    ctx.exhaustive = False
+    for name, recs, tpath in spaces:
+        rowsp.run_rows(ctx, name, recs, tpath, "caps", excl)
+    probe_known(ctx, "caps")
+    ctx.assumptions = ROWS_ASSUME
+    return "model_checking"
+
+
+def inject_export(prof, n):
+    return common.export("inject_%s_%d" % (prof, n), "inject", n, prof=prof)
+
+
+@check("C03")
+def c03(ctx):
+    excl = "".join(common.excl_classes("C03"))
+    ctx.rule = ("records = (base pattern, injected pattern): every single-site injection of (?=) (before/after every "
+                "sub-expression, exported by TLC from Gram!Injections) and seeded multi-site injections; the injected "
+                "pattern's rows over all texts x offsets must equal RefSem!Search of the BASE pattern (all groups); "
+                "the spec-level lemma Search(injected)=Search(base) is checked by TLC on the same cells; "
+                "non-trivial = matching cells")
+    t3 = texts("sig6", 3)
+    single = []
+    for n in (1, 2, 3):
+        single += read_ndjson(inject_export("core", n))
+    cf = read_ndjson(inject_export("ctxfill", 0))
+    bases = read_ndjson(pats("ctxfill", 0)) + read_ndjson(pats("core", 3)) + read_ndjson(pats("core", 4))
+    def multi(k):
+        out = []
+        for b in sample(ctx, bases, k):
+            out.append(dict(ast=randgen.inject_random(ctx.rng, b["ast"], ctx.rng.randint(2, 4)), base=b["ast"], ng=b["ng"]))
+        return renumber_ids(out)
+    if ctx.quick:
+        spaces = [("inj_pat123", renumber_ids(sample(ctx, single, 2500)), t3), ("inj_ctxfill", renumber_ids(sample(ctx, cf, 2500)), t3),
+                  ("inj_multi", multi(800), t3)]
+    else:
+        p4 = read_ndjson(inject_export("core", 4))
+        spaces = [("inj_pat123", renumber_ids(single), t3), ("inj_ctxfill", cf, t3), ("inj_pat4", renumber_ids(sample(ctx, p4, 40000)), t3),
+                  ("inj_multi", multi(10000), t3)]
+    ctx.exhaustive = False
+    for name, recs, tpath in spaces:
+        rowsp.run_rows(ctx, name, recs, tpath, "caps", excl, lemma=True)
+    probe_known(ctx, "caps")
+    ctx.assumptions = ROWS_ASSUME + ["base patterns themselves are compared with RefSem by C01/C02"]
+    return "model_checking"
+
+
 def replay(ctx, path):
     with open(path) as f:
         v = json.load(f)
     d = v["detail"]
     if d.get("kind") == "rows":
         sub = common.Ctx(ctx.prop, ctx.tier, ctx.seed)
-        res = rowsp.run_rows(sub, "replay", [{"id": 1, "ast": d["ast"], "ng": d["ng"]}], d["texts"], d["mode"], excl="", violation=True, shards=1)
+        rec = {"id": 1, "ast": d["ast"], "ng": d["ng"]}
+        if d.get("base") and d["base"] != d["ast"]:
+            rec["base"] = d["base"]
+        res = rowsp.run_rows(sub, "replay", [rec], d["texts"], d["mode"], excl="", violation=True, shards=1)
         print(json.dumps(dict(pattern=d["pat"], rejected=bool(res["rejects"]), rejects=res["rejects"]), indent=1))
         if res["rejects"]:
             print("VIOLATION property=%s replay=%s" % (ctx.prop, path))
